@@ -43,6 +43,15 @@ func (c *compiler) floatOrByteAsInt(src value.Value, from ddpIrType) value.Value
 	}
 }
 
+// brings two integer operands (Zahl or Byte) to a common width
+// two Bytes stay Bytes, every other combination is widened to Zahl
+func (c *compiler) commonIntType(lhs value.Value, lhsTyp ddpIrType, rhs value.Value, rhsTyp ddpIrType) (value.Value, value.Value, ddpIrType) {
+	if lhsTyp == c.ddpbytetyp && rhsTyp == c.ddpbytetyp {
+		return lhs, rhs, c.ddpbytetyp
+	}
+	return c.floatOrByteAsInt(lhs, lhsTyp), c.floatOrByteAsInt(rhs, rhsTyp), c.ddpinttyp
+}
+
 func (c *compiler) intOrByteAsFloat(src value.Value, from ddpIrType) value.Value {
 	switch from {
 	case c.ddpinttyp:
